@@ -118,7 +118,7 @@ public:
     /** A shortcut to Lattice::Presets::addPSite with \f$U'=U-2J\f$, i.e. U_p = U - 2.0* J */
     static void addCoulombP(Lattice *L, const std::string& label, MelemType U, MelemType J, MelemType Level);
 
-    /** Adds a magnetic \f$ \sum\limits_\alpha mH \frac{1}{2} (n_{i\alpha\uparrow} - n_{i\alpha\downarrow}) \f$ splitting to a given site. Valid only for 2 spins.
+    /** Adds a magnetic \f$ \sum\limits_\alpha mH (n_{i\alpha\uparrow} - n_{i\alpha\downarrow}) \f$ splitting to a given site. Valid only for 2 spins.
      * \param[in] L A pointer to the Lattice to add the terms. 
      * \param[in] label \f$i\f$ - label of the site.
      * \param[in] Magnetization \f$mH\f$ - magnetization to add.
